@@ -776,6 +776,7 @@ func (w *world) epilogue() {
 	if w.expCount <= 600 {
 		free := w.expCount - len(w.alloc)
 		for k := 0; k < free; k++ {
+			w.inFl["zepi"] = inflight{kind: "arrange"} // the accounting invariant is not evaluated inside the call
 			idx, err := w.bks.ArrangeBlock()
 			if err != nil {
 				e.Violate("C17", "exhausted_too_early", "ArrangeBlock failed with %v while %d of %d blocks are still free", err, free-k, w.expCount)
@@ -786,6 +787,7 @@ func (w *world) epilogue() {
 				return
 			}
 			w.alloc[idx] = &abk{owner: -1}
+			delete(w.inFl, "zepi")
 		}
 		if _, err := w.bks.ArrangeBlock(); !errors.Is(err, errors.ErrExhausted) {
 			e.Violate("C17", "not_exhausted", "all %d blocks are allocated but ArrangeBlock returned %v instead of ErrExhausted", w.expCount, err)
